@@ -187,6 +187,16 @@ theorem executable_dm_model_agrees (ne np nc : Nat) (det : Bool) (script : List 
   rw [regsOf_eq_finalRecord] at e
   exact ⟨m, e, hrep.1, hrep.2⟩
 
+open Graphiq.DMX in
+/-- the same inside the executable world: `compileDM`'s matrix is, entry by entry, the executable
+    `stabilizerDensity` (`∏ (1 + (−1)^{r_k} g_k)/2` over ℚ[i]) of the stabilizer run's tableau -/
+theorem executable_dm_model_equals_stabilizer_density (ne np nc : Nat) (det : Bool) (script : List Bool) (ops : List COp)
+    (hwf : ∀ op, op ∈ ops → op.WF np) (s : RunState) (h : stabRun ne np (detOf det) script ops = some s) :
+    ∃ m : Mat, Noise.compileDM false ne np nc det (trOps ops)
+        = .ok { ρ := some m, creg := (finalRecord nc s.writes).map fun b => if b then 1 else 0 } ∧
+      Mat.EqOn m (DM.stabilizerDensity s.t) :=
+  compileDM_eq_stabilizerDensity ne np nc det script ops hwf s h
+
 /-- **A reset leaves the measured qubit in |0⟩, density-matrix side**: on a qubit with a definite Z value (which the
     control of a measure-and-reset has after its measurement) the Kraus pair `|0⟩⟨0|, |0⟩⟨1|` of
     `get_reset_qubit_kraus` is exactly `reset_z` of the stabilizer backend. -/
@@ -308,5 +318,11 @@ example : ∃ (s : RunState) (m : Mat), stabRun 1 1 .one [] bell = some s ∧
   obtain ⟨s, hs⟩ := compile_returns 1 1 .one [] bell bell_inRange
   obtain ⟨m, e, _⟩ := executable_dm_model_agrees 1 1 2 true [] bell bell_wf s hs
   exact ⟨s, m, hs, e⟩
+
+/-- … and the instance evaluated by the kernel: on the Bell circuit (forced 1) the executable `compileDM` returns exactly the
+    executable `stabilizerDensity` of the stabilizer run's tableau, and the registers `[1, 1]` -/
+example : (match Noise.compileDM false 1 1 2 true (DMX.trOps bell), stabRun 1 1 .one [] bell with
+    | .ok { ρ := some m, creg := creg }, some s => m.beq (DM.stabilizerDensity s.t).norm && creg == [1, 1]
+    | _, _ => false) = true := by decide +kernel
 
 end Graphiq.C01
